@@ -59,6 +59,7 @@ func main() {
 		os.Exit(2)
 	}
 	eng.specs = loadSpecs(*repo, *verif+"/contracts-lib")
+	eng.loadHints(*verif + "/hints/houdini.json")
 	for _, e := range eng.specs.Errors {
 		fmt.Fprintln(os.Stderr, "spec error:", e)
 	}
@@ -120,6 +121,9 @@ func main() {
 			status := "ok  "
 			if !o.ok() {
 				status = "FAIL"
+			}
+			if o.Info && o.Res.Status == "unsat" {
+				fmt.Printf("note: UNREACHABLE under the assumptions: %s %s (postconditions proved there are vacuous)\n", o.Unit, o.Pos)
 			}
 			if *verbose || !o.ok() {
 				fmt.Printf("%s %-9s %-70s %s [%s %s %.2fs] %s\n", status, o.Kind, o.Name, o.Pos, o.Res.Status, o.Res.Solver, o.Res.Time, trunc(o.Desc, 100))
